@@ -63,9 +63,9 @@ def make_script(rng):
             i = rng.below(n)
             c = rng.below(8)
             if c == 0:
-                ops.append(("ctrl", i, W.cmd("CMD RXTUNE %d" % rng.choice(W.FREQS))))
+                ops.append(("ctrl", i, W.cmd("CMD RXTUNE %d" % W.rand_int_arg(rng, "RXTUNE"))))
             elif c == 1:
-                ops.append(("ctrl", i, W.cmd("CMD TXTUNE %d" % rng.choice(W.FREQS))))
+                ops.append(("ctrl", i, W.cmd("CMD TXTUNE %d" % W.rand_int_arg(rng, "TXTUNE"))))
             elif c == 2:
                 k = rng.range(1, 4)
                 fr = " ".join("%d %d" % (rng.choice(W.FREQS), rng.choice(W.FREQS)) for _ in range(k))
@@ -111,6 +111,17 @@ def oracle(ctx, script, real):
     # mute flags, drop counters / periods and header versions likewise come from the command history (C05's reference of the documented
     # command table), not from the attributes the implementation reports: RFMUTE / FAKE_DROP / SETFORMAT act on the addressed transceiver only
     from . import C05 as _C05
+    # which transceiver manages which children is taken from the --trx definitions (the wiring fake_trx documents: the BTS and
+    # additional parents manage their children, the MS does not), not from the objects' own attributes
+    from . import C12 as _C12
+    want_cfg = _C12.expected_config(defs)
+    if len(want_cfg) == len(cfg):
+        for k, (g, w) in enumerate(zip(cfg, want_cfg)):
+            bad = [f for f in w if g.get(f) != w[f]]
+            if bad:
+                ctx.oracle_fail("transceiver %d is not wired as its --trx definition says: %s" % (k, ",".join(bad)), dict(trx=k, trx_defs=defs),
+                                key="c02-wiring:" + ",".join(bad), expected={f: w[f] for f in bad}, observed={f: g.get(f) for f in bad})
+        cfg = [dict(c, **w) for c, w in zip(cfg, want_cfg)]
     ref = _C05.Ref(cfg)
     for e in events:
         if e["op"][0] == "ctrl":
